@@ -495,6 +495,8 @@ def make_upload(rng, o, mode, opts):
 
 
 def c03_work(item, ctx):
+    if item[0] == "two":
+        return c03_two_work(item, ctx)
     res = F.Res()
     kind, idx, n = item
     exe = ctx["exes"]["asan"]
@@ -597,6 +599,80 @@ def c03_work(item, ctx):
     return res
 
 
+def c03_two_work(item, ctx):
+    """Two SDO servers (CO_SSDO_N = 2): an upload on one server interleaved step by step with an upload or a download on the other
+    (different objects: the shared transfer position of one object is the recorded finding of C02)."""
+    res = F.Res()
+    kind, idx, n = item
+    rng = random.Random(F.seed_for(ctx["seed"], "C03", kind, idx))
+    world = World(rng, ns=2)
+    sim = S.Sim(ctx["exes"]["asan2"], world.cfg)
+    run = Runner(res, sim, world, "C03")
+    try:
+        objs = [o for o in world.om.values() if o.readable and o.kind in ("int", "str", "dom")]
+        big = [o for o in objs if o.size() > 127] or objs
+        for t in range(n):
+            def upl(o):
+                mode = rng.choice(["normal", "blk", "blk", "blk"])
+                opts = {"blksize": rng.choice([1, 3, 7, 19, 20, 64, 127, rng.randint(1, 127)]), "ack": rng.choice(["all", "rand", "rand"]),
+                        "vary": rng.random() < 0.4, "crc": rng.random() < 0.2}
+                return (o, mode, opts)
+            a = upl(rng.choice(big if rng.random() < 0.7 else objs))
+            s0 = rng.randrange(2)
+            coros = [(s0, make_upload(rng, *a))]
+            b = dl = None
+            if rng.random() < 0.6:
+                b = upl(rng.choice(objs))
+                while b[0] is a[0]:
+                    b = upl(rng.choice(objs))
+                coros.append((1 - s0, make_upload(rng, *b)))
+            else:
+                dl = choose_download(rng, world)
+                while dl[0] is a[0]:
+                    dl = choose_download(rng, world)
+                coros.append((1 - s0, make_download(rng, *dl)))
+            outs = run.interleave(coros)
+            res.evals += 1
+            for (srv, case) in ((s0, a), (1 - s0, b)):
+                if case is None:
+                    continue
+                o, mode, opts = case
+                out = outs[srv]
+                desc = "%s upload of %04x:%02x (%s, %d bytes) %s on server %d, interleaved with %s on server %d" % (
+                    mode, o.idx, o.sub, o.kind, o.size(), opts if mode == "blk" else "", srv, "a download" if (dl and case is a) else "an upload", 1 - srv)
+                res.counters["up_" + mode] += 1
+                res.counters["uploads_interleaved_with_other_server"] += 1
+                if out.kind == "deviation":
+                    res.violation("c03/response/%s/%s" % (out.deviation.rule, mode), desc + ": " + out.deviation.desc, sim=sim); return res
+                if out.kind == "abort":
+                    res.violation("c03/aborted/%s/%s/%08x" % (mode, o.kind, out.code), desc + ": aborted with %08x" % out.code, sim=sim); return res
+                want = o.bytes()
+                if out.size != len(want):
+                    res.violation("c03/size/%s/%s" % (mode, o.kind), desc + ": announced size %d, object has %d bytes" % (out.size, len(want)), sim=sim); return res
+                if out.data != want:
+                    first = next((i for i in range(min(len(want), len(out.data))) if want[i] != out.data[i]), min(len(want), len(out.data)))
+                    res.violation("c03/data/%s/%s/two-servers" % (mode, o.kind), desc + ": assembled bytes differ from the object at offset %d" % first, sim=sim,
+                                  expected=want[max(0, first - 8):first + 24].hex(), observed=out.data[max(0, first - 8):first + 24].hex()); return res
+                st = out.stats
+                res.counters["partial_acks"] += st.get("partial", 0)
+                if st.get("partial", 0) > 0 or st.get("segments", 0) >= 2 or st.get("blocks", 0) >= 2:
+                    res.nt("two", mode, o.idx, o.sub, repr(opts), srv, st.get("partial", 0))
+            if dl:
+                out = outs[1 - s0]
+                if out.kind != "ok":
+                    res.violation("c03/two-servers/download", "conforming %s download of %d bytes to %04x:%02x on server %d beside an upload on server %d: %s" % (
+                        dl[2], len(dl[1]), dl[0].idx, dl[0].sub, 1 - s0, s0, out.deviation.desc if out.kind == "deviation" else "abort %08x" % out.code), sim=sim); return res
+                apply_download(dl[0], dl[1])
+            bad = world.check_dump(sim)
+            if bad:
+                res.violation("c03/storage-changed/two-servers", "interleaved transfers left storage different from the model: %r" % bad[:3], sim=sim); return res
+    except S.SimDied as e:
+        res.violation("c03/crash/" + e.signature, "executor died: " + e.signature, sim=sim, detail=e.detail[-2000:])
+    finally:
+        sim.close()
+    return res
+
+
 # ------------------------------------------------------------ property glue
 def _selftest_common(ctx):
     # the reference client must flag a wrong toggle, a wrong ackseq and a short upload
@@ -656,11 +732,11 @@ def for_property(prop):
             return p
         m.finish = finish
     elif prop == "C03":
-        m.VARIANTS = ["asan"]
+        m.VARIANTS = ["asan", "asan2"]
         m.RULE = ("uploads of every readable object (integers, strings 1..1000, domains 1..4000) by the reference client: normal "
                   "(expedited/segmented) and block with requested block size 1..127, per-block acknowledge of any prefix (complete enumeration "
                   "of domain sizes 1..64 x blksize 1..9 x every single-acknowledge position; systematic rotation for objects <= 100 bytes; random otherwise), block size changed between blocks, "
-                  "each object read up to 3 times in a row; non-trivial = >= 1 partial acknowledge or >= 2 segments/blocks")
+                  "each object read up to 3 times in a row; with two servers (CO_SSDO_N=2) an upload on one interleaved step by step with an upload or download of another object on the other; non-trivial = >= 1 partial acknowledge or >= 2 segments/blocks")
         m.ASSUMPTIONS = ["zero-length strings are not uploaded (CiA 301 cannot express them in an expedited answer)",
                          "pst = 0 (no protocol switch requested)", "a client never acknowledges 0 segments twice in a row (progress)"]
         m.work = c03_work
@@ -670,6 +746,7 @@ def for_property(prop):
             items = [("rand", i, 20 if q else 60) for i in range(64 if q else 4800)]
             items += [("sys", i, 60 if q else 300) for i in range(32 if q else 2400)]
             items += [("enum", i, 0) for i in range(4)]
+            items += [("two", i, 15 if q else 40) for i in range(32 if q else 1600)]
             return items
         m.plan = plan
 
@@ -677,6 +754,8 @@ def for_property(prop):
             p = []
             if total.counters["partial_acks"] < 20:
                 p.append("fewer than 20 partial acknowledges observed")
+            if total.counters["uploads_interleaved_with_other_server"] < 300:
+                p.append("only %d uploads interleaved with traffic on the second server" % total.counters["uploads_interleaved_with_other_server"])
             return p
         m.finish = finish
     else:
